@@ -345,6 +345,15 @@ def run_oneport(chk, drv, L, state):
                 out.append('error:%s' % type(e).__name__)
         return out
 
+    import time as _time
+    _t = [_time.time()]
+
+    def _tick(label):
+        now = _time.time()
+        if os.environ.get('VERIF_DEBUG') and now - _t[0] > 5:
+            sys.stderr.write('SLOW %.1fs %s\n' % (now - _t[0], label))
+        _t[0] = now
+
     for case in range(n_trees):
         family = 'transient' if case % 3 != 2 else 'resistive'
         illposed = (case % 10 == 9)
@@ -382,8 +391,11 @@ def run_oneport(chk, drv, L, state):
         chk.count('precondition', 'tOK=%s nOK=%s icOK=%s' % (tOK, nOK, icOK))
         chk.sample({'tree': toks, 's': fstr(s), 'line': line, 'model': [None if v is None else fstr(v) for v in mod]})
 
+        _tick('before ' + toks)
         alg = lc_quantities(net, s, 'algebra')
+        _tick('algebra ' + toks)
         cct = lc_quantities(net, s, 'cct')
+        _tick('cct ' + toks)
         replay = {'input': {'tree': toks, 's': fstr(s), 'lcapy_expr': str(net)},
                   'lcapy': {'algebra': [_f(v) for v in alg], 'cct': [_f(v) for v in cct]},
                   'model': [_f(v) for v in mod], 'spec': 'line a v + b i = c: ' + line,
